@@ -91,6 +91,17 @@ def r2(cx, run):
             run.check(good, "R2", key, "`?`: Break edge returns the error without touching the writer tree again",
                       "after a failed write the function continues into the writer tree (bb %s), or the error does not reach the return" % again, mir.loc_of(t))
     run.floor("R2", n, 12, "writer-tree call sites")
+    # the sink calls themselves: each buffer is offered exactly once per helper invocation and the sink's verdict is final
+    for (p, bb, method, t) in an.sink_calls:
+        b = u.bodies[p]
+        again = t.get("target") is not None and bb in mir.reachable(b, [t["target"]])
+        exits = flow.exits(b)
+        deleg = any(e["kind"] == "deleg" and e["node"] is t for e in exits)
+        ts = [x for x in flow.try_sites(b) if x["src_call_bb"] == bb]
+        propagated = deleg or (len(ts) == 1 and _dest_single_use(b, t))
+        run.check(not again and propagated, "R2", "sink verdict final %s::%s" % (mir.norm(p), method), "the sink call runs once per invocation and its Result is returned / `?`-propagated unseen",
+                  ("the sink call can run again for the same buffer (it lies on a loop): after a short write followed by an error the bytes already accepted are sent a second time" if again else
+                   "the Result of the sink call is inspected or replaced instead of being returned / `?`-propagated: a failure could be retried, swallowed or rewritten"), mir.loc_of(t))
 
 
 def _dest_single_use(body, t):
